@@ -78,6 +78,9 @@ def gen(rng, tier, index):
         faults = [{'stage': rng.choice(stages), 'pos': rng.randrange(n),
                    'exc': rng.choice(['value', 'filter', 'base', 'key'])}]
     trace = ['parallel_utils', 'core'] if rng.random() < 0.3 else ['parallel_utils']
+    # key iteration: the worker then iterates a generator object, not a dataset
+    items = bool(a.items is not False and desc['source']['kind'] == 'dict'
+                 and rng.random() < 0.25)
     cases = []
     ks = list(range(0, nout + 2)) + [None]
     for k in ks:
@@ -91,6 +94,8 @@ def gen(rng, tier, index):
              'think_max': rng.choice([0, 0, 2, 6]), 'trace': trace}
         if strict and k is not None:
             c['strict_cancel'] = True
+        if items:
+            c['items'] = True
         cases.append(c)
     return cases
 
